@@ -11,6 +11,11 @@ RULE = ("random ordered pairs of context-free grammars (shared variable names, 2
         "and by bounded language comparison (all words of length <=4) computed from the verified membership oracle. "
         "Non-trivial: first grammar has >=2 productions, one with a body of length >=2.")
 THEOREMS = ["Pfl.CFG.reverse_lang",
+            "Pfl.CFG.substitute_lang",
+            "Pfl.CFG.union_lang",
+            "Pfl.CFG.concatenate_lang",
+            "Pfl.CFG.closure_lang",
+            "Pfl.CFG.posClosure_lang",
             "Pfl.CFG.cfgMem_iff",
             "Pfl.CFG.mem_langUpTo_iff",
             "Pfl.CFG.langUpTo_nodup"]
